@@ -42,7 +42,7 @@ def origin_of(linemap, line):
     return None
 
 def run_verus(path, extra=None, timeout=600, multiple_errors=20):
-    cmd = [VERUS, path, '--output-json', '--time', '--error-format=json', '--multiple-errors', str(multiple_errors)] + ([] if (extra and '--rlimit' in extra) else ['--rlimit', '40']) + (extra or [])
+    cmd = [VERUS, path, '--output-json', '--time', '--error-format=json', '--multiple-errors', str(multiple_errors)] + ([] if (extra and '--rlimit' in extra) else ['--rlimit', '60']) + (extra or [])
     t0 = time.time()
     try:
         p = subprocess.run(cmd, stdout=subprocess.PIPE, stderr=subprocess.PIPE, timeout=timeout, cwd=os.path.dirname(path))
